@@ -427,8 +427,21 @@ struct VmExpect {
 
 enum VmModelErr {
     /// the text itself produced one of the reserved control sequences (only possible through
-    /// `^^xy`), or a command could not be parsed for that reason
+    /// `^^` notation), or a command could not be parsed for that reason
     Reserved(String),
+}
+
+/// Number of `^^` reductions the model performed on this program up to the point where it
+/// stopped being interpretable (reserved names can only be spelled through them).
+fn reductions_until_failure(src: &str, initial: &Table) -> u32 {
+    let mut n = 0;
+    let _ = vm_model_inner(src, initial, Quirks::default(), &mut n);
+    n
+}
+
+fn vm_model(src: &str, initial: &Table, quirks: Quirks) -> Result<VmExpect, VmModelErr> {
+    let mut n = 0;
+    vm_model_inner(src, initial, quirks, &mut n)
 }
 
 struct Interp {
@@ -497,7 +510,12 @@ impl Interp {
     }
 }
 
-fn vm_model(src: &str, initial: &Table, quirks: Quirks) -> Result<VmExpect, VmModelErr> {
+fn vm_model_inner(
+    src: &str,
+    initial: &Table,
+    quirks: Quirks,
+    reductions: &mut u32,
+) -> Result<VmExpect, VmModelErr> {
     let mut ip = Interp {
         lx: model::Lexer::with_quirks(src, quirks),
         table: initial.clone(),
@@ -514,6 +532,7 @@ fn vm_model(src: &str, initial: &Table, quirks: Quirks) -> Result<VmExpect, VmMo
     let mut recording = false;
     loop {
         let it = ip.next();
+        *reductions = ip.lx.stats.reductions_main + ip.lx.stats.reductions_in_name;
         match &it {
             Item::End => break,
             Item::Invalid(..) => {
@@ -604,8 +623,7 @@ fn check_vm(obs: &mut Obs, prefix: &str, src: &str) -> bool {
         Err(VmModelErr::Reserved(why)) => {
             // outside what the generator means to produce; only reachable through ^^xy
             // spelling one of the reserved names
-            let (_, st) = model::lex_all(src, &|c| initial.get(c), Some('\r'), Quirks::default());
-            if st.hex_reductions + st.reductions_in_name + st.reductions_main > 0 {
+            if reductions_until_failure(src, &initial) > 0 {
                 obs.skip("vm-text-spells-a-reserved-command-through-caret-notation");
             } else {
                 obs.inconclusive(format!("vm program not interpretable by the harness: {why}; source {:?}", src));
